@@ -86,11 +86,16 @@ Theorem C08_enact_step_atomic :
 Proof. exact enact_step_atomic. Qed.
 Print Assumptions C08_enact_step_atomic.
 
-(* "completely": each modelled handler, when it reports success, has produced the whole effect of
-   its content.  The durations handler is read from the source on every run (Gen/GovHandlers.v):
-   with the error swallowed ([durations_error_returned = false], the tree as found) the full
-   statement is refuted; it holds once the error is returned, and always for lists without an
-   entry below MinimumProposalEndTime. *)
+(* "completely": each modelled handler, when it reports success, has produced the whole effect of its
+   content.  The error branch of the durations handler is read from the source on every run
+   (Gen/GovHandlers.v, [durations_error_returned]); for the tree as it is the statement holds at
+   full strength.  [_refuted] documents the earlier `return nil` shape (flag false), for which the
+   statement fails; [_partial] is what holds whatever the flag. *)
+Theorem C08_handler_success_is_full_effect : forall ct w w',
+  c_handler durations_error_returned ct w = Ok w' -> w' = spec_effect ct w.
+Proof. exact handler_success_is_full_effect_now. Qed.
+Print Assumptions C08_handler_success_is_full_effect.
+
 Theorem C08_handler_success_is_full_effect_refuted :
   exists l w w', c_handler false (CDurations l) w = Ok w' /\ w' <> spec_effect (CDurations l) w.
 Proof. exact durations_all_or_nothing_refuted. Qed.
@@ -169,18 +174,28 @@ Example C08_nonvacuous :
   /\ votes demo_final 1 = [(0, 1)].
 Proof. exact demo_applied_once. Qed.
 
-(* ---- the float32 tally of the code (Flocq binary32).  This theorem alone depends on the four
-   standard-library axioms of the Reals (one Print Assumptions block, kept last).
-   (1) refuted: "the float32 decision equals the exact rule" fails from 2^24 voters on
-       (16777216 yes of 33554431 is more than half, not in float32 -- the error is on the safe side);
-   (2) partial: it holds for every tally of fewer than 256 voters (verified sweep over all numerators);
-   (3) the two numerators around one half are decided exactly for the 2000 largest totals below 2^24;
-   (4) the float32 decision is never Enactment / Pending (hypothesis of C08_applied_only_if_passed). *)
-Theorem C08_tally_float_exact_refuted_and_partial :
-  (exists t, 0 <= t_yes t <= t_total t /\ decide_q t = Passed /\ decide_f32 t <> Passed)
-  /\ (forall t, 0 <= t_yes t -> 0 <= t_no t -> 0 <= t_abstain t -> 0 <= t_veto t -> 0 <= t_vcap t < 256 ->
-       t_yes t + t_no t + t_abstain t + t_veto t <= t_total t < 256 -> decide_f32 t = decide_q t)
-  /\ boundary_ok = true
-  /\ (forall t, decide_f32 t <> Enactment /\ decide_f32 t <> Pending).
-Proof. exact (conj decide_f32_refuted (conj decide_f32_exact_partial (conj boundary_ok_true decide_f32_range))). Qed.
-Print Assumptions C08_tally_float_exact_refuted_and_partial.
+(* ---- the float32 tally of the code (Flocq binary32).  These four theorems alone depend on the four
+   standard-library axioms of the Reals. *)
+(* "the float32 decision equals the exact rule" fails from 2^24 voters on: 16777216 yes of 33554431
+   is more than half, but not in float32 (the error is on the safe side: a proposal fails to pass) *)
+Theorem C08_tally_float_exact_refuted :
+  exists t, 0 <= t_yes t <= t_total t /\ decide_q t = Passed /\ decide_f32 t <> Passed.
+Proof. exact decide_f32_refuted. Qed.
+Print Assumptions C08_tally_float_exact_refuted.
+
+(* it holds for every tally of fewer than 256 voters (verified sweep over all numerators) *)
+Theorem C08_tally_float_exact_partial : forall t,
+  0 <= t_yes t -> 0 <= t_no t -> 0 <= t_abstain t -> 0 <= t_veto t -> 0 <= t_vcap t < 256 ->
+  t_yes t + t_no t + t_abstain t + t_veto t <= t_total t < 256 -> decide_f32 t = decide_q t.
+Proof. exact decide_f32_exact_partial. Qed.
+Print Assumptions C08_tally_float_exact_partial.
+
+(* the two numerators around one half are decided exactly for the 2000 largest totals below 2^24 *)
+Theorem C08_tally_float_boundary_below_2p24 : boundary_ok = true.
+Proof. exact boundary_ok_true. Qed.
+Print Assumptions C08_tally_float_boundary_below_2p24.
+
+(* the float32 decision is never Enactment / Pending (hypothesis of C08_applied_only_if_passed) *)
+Theorem C08_float_decision_in_range : forall t, decide_f32 t <> Enactment /\ decide_f32 t <> Pending.
+Proof. exact decide_f32_range. Qed.
+Print Assumptions C08_float_decision_in_range.
